@@ -346,3 +346,11 @@ Proof.
   induction ops as [|o ops IH]; intros w; cbn [fold_left]; [apply world_le_refl|].
   eapply world_le_trans; [apply step_le|apply IH].
 Qed.
+
+Lemma restart_box w n b : get_box w n = Some b -> get_box (fst (step w ORestart)) n = Some (set_clients b []).
+Proof.
+  intros H. unfold step. cbn [fst]. unfold get_box in *. cbn [w_boxes]. rewrite get_box_map_clients, H. reflexivity.
+Qed.
+
+Lemma restart_inv w : winv w -> winv (fst (step w ORestart)).
+Proof. exact (step_inv w ORestart). Qed.
